@@ -365,6 +365,10 @@ impl std::str::FromStr for Relation {
             let mut archs = Vec::new();
             loop {
                 match tokens.next() {
+                    Some((NOT, _)) => match tokens.next() {
+                        Some((IDENT, s)) => archs.push(format!("!{}", s)),
+                        _ => return Err("Expected architecture name".to_string()),
+                    },
                     Some((IDENT, s)) => archs.push(s),
                     Some((WHITESPACE, _)) => {}
                     Some((R_BRACKET, _)) => break,
